@@ -209,6 +209,29 @@ def edge_variant_db(r):
         alt = r.choice([c for c in "ACGT" if c != seq[L - 1]])
         doc["alleles"][f"{doc['name']}*88.001"] = {"mutations": [[L, f"{seq[L - 1]}>{alt}", "-", "functional"]]}
         y = yaml.safe_dump(doc, sort_keys=False, default_flow_style=None)
+    if r.random() < 0.5:
+        # a SNP on the first / last RefSeq base of a gene region (where a fused structure switches between gene and
+        # pseudogene): both builds must assign it to the same region
+        doc = yaml.safe_load(y)
+        seq = doc["reference"]["seq"]
+        regs = doc["structure"]["regions"]["hg19"]
+        S = doc["reference"]["mappings"]["hg19"][1]
+        used = {e[0] for a in doc["alleles"].values() for e in a["mutations"] if isinstance(e[0], int)}
+        names = [n for n in regs if n not in ("up", "down")]
+        k = 0
+        for n in r.sample(names, min(len(names), 2)):
+            a, b = regs[n][0], regs[n][1]          # gene copy: 1-based genome start, end (half-open) on the + strand build
+            p = (a if r.random() < 0.6 else b - 1) - S + 1   # 1-based RefSeq position
+            if p in used or p - 1 in used or p + 1 in used or not (1 <= p <= len(seq)):
+                continue
+            alt = r.choice([c for c in "ACGT" if c != seq[p - 1]])
+            k += 1
+            doc["alleles"][f"{doc['name']}*{90 + k}.001"] = {"mutations": [[p, f"{seq[p - 1]}>{alt}", "-", "functional"]]}
+            # also on an existing allele, so that fusion partials of catalogued alleles carry it
+            plain = [an for an, al in doc["alleles"].items() if al["mutations"] and all(isinstance(e[0], int) for e in al["mutations"]) and not an.endswith(f"*{90 + k}.001")]
+            if plain:
+                doc["alleles"][r.choice(plain)]["mutations"].append([p, f"{seq[p - 1]}>{alt}", "-", "functional"])
+        y = yaml.safe_dump(doc, sort_keys=False, default_flow_style=None)
     return y
 
 
@@ -248,6 +271,20 @@ def shiftable_indel(gene, m):
     return False
 
 
+def geometry_differs(genes):
+    """region of every RefSeq base mapped in both builds, and the copy number a configuration gives it"""
+    ga, gb = genes
+    for p, ca in ga.ref_to_chr.items():
+        cb = gb.ref_to_chr.get(p)
+        if cb is None:
+            continue
+        ra, rb = ga.region_at(ca), gb.region_at(cb)
+        if ra != rb:
+            # bases of the alignment gaps aside, a RefSeq base lies in the same region whichever build is loaded
+            return f"RefSeq base {p + 1} lies in region {ra} of {ga.genome} but in region {rb} of {gb.genome}"
+    return None
+
+
 def load_pair(gd):
     return [instances.load_gene({**gd, "genome": gm})[0] for gm in ("hg19", "hg38")]
 
@@ -264,6 +301,15 @@ def tie(ctx):
     distinct = set()
     samples = []
     n = 240 if quick else 2500
+    # ---- what the stages ask the database per RefSeq base is the same in both builds ------------------------------
+    for gd in pool:
+        if gd["kind"] == "shipped":
+            continue    # the shipped databases annotate UTR / flank boundaries per build (data, not code): not compared
+        genes = load_pair(gd)
+        why = geometry_differs(genes)
+        stats["geometry_pairs"] += 1
+        if why:
+            violations.append({"why": why, "input": {"db": gd}, "signature": "c13:region_map_differs"})
     for i in range(n):
         gd = pool[i % len(pool)]
         genes = load_pair(gd)
